@@ -532,6 +532,90 @@ func (k *c02Checker) multi() {
 	}
 }
 
+// filemulti: a stream of Phylip alignments written to one plain / .gz / .xz file, one
+// WriteString per alignment (the way the command line writes its output), read back
+// through GetReader + ParseMultiple.
+func (k *c02Checker) fileMulti() {
+	c, cs := k.c, k.cs
+	v := &c02Variants[cs.V]
+	if v.Fmt != align.FORMAT_PHYLIP {
+		c.Fatal("filemulti case with a non-Phylip variant: %s", jsonStr(cs))
+		return
+	}
+	als := make([]align.Alignment, len(cs.List))
+	for i, r := range cs.List {
+		if !c02Representable(v, r) {
+			c.Count("not_representable:"+v.Name, 1)
+			return
+		}
+		var ok bool
+		if als[i], ok = k.build(r); !ok {
+			return
+		}
+	}
+	dir := c02Temp(c)
+	if dir == "" {
+		return
+	}
+	c.Eval()
+	path := filepath.Join(dir, "stream."+v.Name+cs.Ext)
+	defer os.Remove(path)
+	op := "filemulti" + cs.Ext
+	var werr error
+	if !k.call(op, v, "", cs, func() {
+		var f utils.StringWriterCloser
+		if f, werr = utils.OpenWriteFile(path); werr != nil {
+			return
+		}
+		for _, al := range als {
+			if _, werr = f.WriteString(c02Write(v, al)); werr != nil {
+				f.Close()
+				return
+			}
+		}
+		werr = f.Close()
+	}) {
+		return
+	}
+	if werr != nil {
+		k.viol(op, v, "write-error", "", werr.Error(), cs)
+		return
+	}
+	var list []align.Alignment
+	var err error
+	if !k.call(op, v, "", cs, func() {
+		var fi io.Closer
+		var r *bufio.Reader
+		if fi, r, err = utils.GetReader(path); err != nil {
+			return
+		}
+		defer fi.Close()
+		ac := &align.AlignChannel{Achan: make(chan align.Alignment, 15)}
+		phylip.NewParser(r, v.Strict).ParseMultiple(ac)
+		list = nil
+		for al := range ac.Achan {
+			list = append(list, al)
+		}
+		err = ac.Err
+	}) {
+		return
+	}
+	switch {
+	case err != nil:
+		k.viol(op, v, "parse-error", c02Slug(err.Error()), err.Error(), cs)
+	case len(list) != len(cs.List):
+		k.viol(op, v, "alignment-count", "", fmt.Sprintf("%d alignments read, %d written", len(list), len(cs.List)), cs)
+	default:
+		for i, got := range list {
+			if clause, desc := c02Compare(got, cs.List[i], als[i].Alphabet()); clause != "" {
+				k.viol(op, v, clause, "", fmt.Sprintf("alignment %d: %s", i, desc), cs)
+				return
+			}
+		}
+		c.Outcome(fmt.Sprintf("filemulti%s:%s:ok:k=%d", cs.Ext, v.Name, len(cs.List)))
+	}
+}
+
 // c02TempDir: a private directory (under TMPDIR) for the file-layer cases of one task.
 var c02TempDir string
 
@@ -732,13 +816,15 @@ func c02Check(c *mc.Ctx, cs c02Case) {
 			}
 		}
 		k.rt()
-	case "multi", "file":
+	case "multi", "file", "filemulti":
 		if cs.V < 0 || cs.V >= len(c02Variants) {
 			c.Fatal("bad variant in %s", jsonStr(cs))
 			return
 		}
 		if cs.Kind == "multi" {
 			k.multi()
+		} else if cs.Kind == "filemulti" {
+			k.fileMulti()
 		} else {
 			k.file()
 		}
@@ -1139,6 +1225,33 @@ func c02Tasks(tier string) []mc.Task {
 		}
 	}
 
+	// (f') streams in files: every list of 1-3 alignments out of {2x10, 2x61, 2x4200 (longer than the
+	// 4096-byte write buffer)} written with one WriteString per alignment into '', .gz and .xz files
+	fmShapes := []rows{c02ShapeRows(c02NtSyms, 2, 10), c02ShapeRows(c02NtSyms, 2, 61), c02ShapeRows(c02NtSyms, 2, 4200)}
+	for vi := c02VPhylip0; vi < c02VPhylip0+8; vi++ {
+		for _, ext := range []string{"", ".gz", ".xz"} {
+			vi, ext := vi, ext
+			add(fmt.Sprintf("filemulti#%s%s", c02Variants[vi].Name, ext), func(c *mc.Ctx) {
+				var rec func(list []rows)
+				rec = func(list []rows) {
+					if c.Expired() {
+						return
+					}
+					c02Check(c, c02Case{Kind: "filemulti", V: vi, Ext: ext, List: list})
+					if len(list) == 3 {
+						return
+					}
+					for _, s := range fmShapes {
+						rec(append(list[:len(list):len(list)], s))
+					}
+				}
+				for _, s := range fmShapes {
+					rec([]rows{s})
+				}
+			})
+		}
+	}
+
 	// (g) conversion chains over the shape corpus
 	chainLens := []int{1, 9, 10, 11, 50, 51, 60, 61, 80, 81, 121, 241}
 	chainRows := []int{2}
@@ -1187,7 +1300,7 @@ func init() {
 			"(b) shapes: 1-3 rows x 32 lengths {1,2,9-11,19-21,49-51,59-61,79-81,99-101,119-121,159-161,179-181,239-241} x {nucleotide, protein} position-coded patterns in which no two 10-column blocks are equal; 4,10,11,100,101 rows x lengths 1,10,61; 2 rows x lengths 4000,4095,4096,4097,8200 (around the readers' 4096-byte buffer); " +
 			"(c) names: every name of length 1-2 over the 94 printable characters and of length 3 over the 16 symbols aB10_|.:()'-#/>= (thorough: length 4 over those 16), as the only row (length 4) and as second row of a 2x61 alignment; thorough: length 3 over all 94 as the only row and as second row of a 2x4 alignment; names of length 1,2,3,8-12,20,30,64 on one and on all three rows with lengths 1,10,61,121; " +
 			"(d) streams: every list of 1-3 (thorough 1-4) alignments out of 6 shapes (1x1, 2x10, 1x60, 2x61, 3x121, 2x5) written consecutively in each of the 8 Phylip configurations, read by phylip.Parser.ParseMultiple and by ParseMultiAlignmentsAuto; " +
-			"(f) files: the 1-3-row shape corpus x 12 configurations x extensions '', .gz, .xz written through utils.OpenWriteFile into a private temporary directory and read through GetReader + parser, ReadAlign (non-strict, not Stockholm) and GetReader + ParseMultiAlignmentsAuto; " +
+			"(f') streams in files: every list of 1-3 alignments out of {2x10, 2x61, 2x4200} written with one WriteString per alignment into a plain, .gz and .xz file in each of the 8 Phylip configurations, read through GetReader + ParseMultiple; (f) files: the 1-3-row shape corpus x 12 configurations x extensions '', .gz, .xz written through utils.OpenWriteFile into a private temporary directory and read through GetReader + parser, ReadAlign (non-strict, not Stockholm) and GetReader + ParseMultiAlignmentsAuto; " +
 			"(g) chains: every sequence of 1-3 configurations (12+144+1728) applied in turn (write, parse, write the parsed alignment, ...) to the 2-row shapes of 12 lengths (thorough: 1-3 rows, 32 lengths), the alignment compared with the original after every step. " +
 			"Alignments whose alphabet goalign detects as neither nucleotide nor protein are skipped. An alignment is non-trivial when at least one configuration can represent it; distinct = distinct (names, rows).",
 		Assumptions: []string{
